@@ -34,6 +34,8 @@ pub mod helpmodel;
 #[cfg(feature = "full")]
 pub mod c14;
 #[cfg(feature = "full")]
+pub mod c15;
+#[cfg(feature = "full")]
 pub mod c16;
 #[cfg(feature = "full")]
 pub mod comp;
@@ -192,6 +194,7 @@ pub fn run_case(case: &mut Case) {
         "C12" => c12::run_case(case),
         "C13" => c13::run_case(case),
         "C14" => c14::run_case(case),
+        "C15" => c15::run_case(case),
         "C16" => c16::run_case(case),
         "C18" => c18::run_case(case),
         "C19" => c19::run_case(case),
